@@ -1,5 +1,5 @@
 import Holpy.C13.Props
-import Holpy.C13.RevertModel
+import Holpy.C13.Revert
 /-
 C13 — property theorems, second file: what `remove_line` does to a line that is cited.
 `ProofState.remove_line` does not check that the line is not cited (it neither refuses nor leaves a
@@ -32,25 +32,29 @@ theorem remove_line_cited_retargets_counterexample :
       (findItem s' [1]).map Item.prevs = some [[0]] ∧ (findItem s' [0]).map Item.th = some (some ⟨2, []⟩) :=
   ⟨by decide, rfl, _, rfl, by decide, rfl, rfl⟩
 
-/-- The two callers of `remove_line`.  `replace_id(old, new)`: when the removal is reached, no line
-of the proof that contains `old` (subproofs included) cites `old` any more — the precondition of
-`remove_line_preserves_wf` holds.  Partial: for the second caller, `revert_intro`, the model
-(`revertIntroM`, Holpy/C13/RevertModel.lean, compared with every real `revert_intro` application by
-the stream `method:revert_intro`) has the code's guard `not is_used(...)` (`usedExceptFrom`); that the
-guard together with the two `set_line` calls leaves no citation of the removed assumption is not
-proved here. -/
-theorem remove_line_callers_establish_precondition_partial (s s1 : Proof) (old new : IId) (cur : Item)
-    (hex : findItem s old = some cur) (hvis : canDependOn old new = true)
-    (h1 : modifyAt old.dropLast (fun items => .ok (replaceList old new items)) s = .ok s1) :
-    ∀ l, getAt old.dropLast s1 = some l → notCitedList old l = true := by
-  intro l hl
-  obtain ⟨l0, split, _, hget, _⟩ := findItem_getAt old s cur hex
-  obtain ⟨l1, e1, hg1⟩ := getAt_modifyAt _ old.dropLast s s1 l0 hget h1
-  simp at e1; subst e1
-  rw [hg1] at hl; cases hl
-  have hne : new ≠ old := by
-    intro e; subst e; rw [canDependOn_irrefl] at hvis; simp at hvis
-  exact notCitedList_replace old new hne l0
+/-- Both callers of `remove_line` establish its precondition (`remove_line_preserves_wf`: no line of
+the proof that contains the removed line cites it).  `replace_id(old, new)`: after the re-pointing
+phase no line of `old`'s proof cites `old`.  `revert_intro` (model `revertIntroM`, compared with every
+real application by the stream `method:revert_intro`): the guard `not is_used(...)` — no line other
+than the `intros` line cites the assumption — together with the two `set_line` calls (the new gap
+cites nothing, the `intros` line is re-set without the assumption) leaves no citation of it anywhere
+in the state on which `remove_line(fact)` is then called. -/
+theorem remove_line_callers_establish_precondition :
+    (∀ (s s1 : Proof) (old new : IId) (cur : Item), findItem s old = some cur → canDependOn old new = true →
+      modifyAt old.dropLast (fun items => .ok (replaceList old new items)) s = .ok s1 →
+      ∀ l, getAt old.dropLast s1 = some l → notCitedList old l = true) ∧
+    (∀ (s s2 : Proof) (id fact : IId) (th' : Option Seq) (ra ri : Nat),
+      revertIntroPrefix s id fact th' ra ri = .ok s2 →
+      ∀ l, getAt fact.dropLast s2 = some l → notCitedList fact l = true) := by
+  refine ⟨fun s s1 old new cur hex hvis h1 l hl => ?_, fun s s2 id fact th' ra ri h l hl => ?_⟩
+  · obtain ⟨l0, split, _, hget, _⟩ := findItem_getAt old s cur hex
+    obtain ⟨l1, e1, hg1⟩ := getAt_modifyAt _ old.dropLast s s1 l0 hget h1
+    simp at e1; subst e1
+    rw [hg1] at hl; cases hl
+    have hne : new ≠ old := by
+      intro e; subst e; rw [canDependOn_irrefl] at hvis; simp at hvis
+    exact notCitedList_replace old new hne l0
+  · exact notCited_getAt fact _ s2 l (revertIntroPrefix_notCited s s2 id fact th' ra ri h) hl
 
 example : findItem c1 [0] ≠ none ∧ canDependOn [2] [0] = true := by decide
 
